@@ -492,6 +492,17 @@ Proof.
   split; [now apply inv_race_free|now apply inv_deadlock_free].
 Qed.
 
+(* start-up code accepted by [startup_ok] never blocks on itself: run by any number
+   of threads (one, for samlidp.New) under any schedule, some thread can always step
+   until all are finished *)
+Theorem startup_sound_l :
+  forall p starts, startup_ok p starts = true ->
+  forall (ts : list (list fname)) codes,
+    (forall invs f, In invs ts -> In f invs -> In f starts) ->
+    expand_threads (strip_program p) ts = Some codes ->
+    forall sched, deadlock_free (run (init codes) sched).
+Proof. intros p starts D ts codes Hin E sched. now destruct (discipline_sound_l _ _ D ts codes Hin E sched). Qed.
+
 (* every access to a guarded location in a reachable state is made by a thread
    that holds the guard (exclusively for writes), and an exclusive holder is the
    only holder: conflicting critical sections never overlap, which is what makes
@@ -582,6 +593,16 @@ Proof.
   eexists. exists [0%nat; 0%nat], 0%nat, 1%nat, Data. split; [vm_compute; reflexivity|].
   unfold race_at. split; [discriminate|]. split; [vm_compute; reflexivity|left; vm_compute; reflexivity].
 Qed.
+
+(* a deferred unlock in a loop body: the second iteration blocks on the first one's lock
+   (the translator flags the defer itself; this is the unrolled shape) *)
+Lemma loop_lock_selfdeadlock :
+  startup_ok [("init", [Acq IdpConfigMu true; Wr ServiceProviders; Acq IdpConfigMu true; Wr ServiceProviders;
+                        Rel IdpConfigMu true; Rel IdpConfigMu true])] ["init"] = false /\
+  exists codes, expand_threads [("init", [Acq IdpConfigMu true; Acq IdpConfigMu true; Rel IdpConfigMu true; Rel IdpConfigMu true])]
+                               [["init"]] = Some codes /\
+                stuckb (run (init codes) [0%nat; 0%nat; 0%nat]) = true.
+Proof. split; [vm_compute; reflexivity|]. eexists. split; [vm_compute; reflexivity|vm_compute; reflexivity]. Qed.
 
 (* lock-order inversion is rejected and deadlocks in the semantics *)
 Definition inversion_program : program :=
